@@ -305,6 +305,16 @@ impl UtpStreamWriteHalf {
         self.user_tx.verif_fp(out)
     }
 
+    /// Verification hook: is a writer waker registered, and would it wake `current`?
+    pub fn verif_writer_waker_wakes(&self, current: &std::task::Waker) -> Option<bool> {
+        self.user_tx
+            .locked
+            .read()
+            .writer_waker
+            .as_ref()
+            .map(|w| w.will_wake(current))
+    }
+
     /// Verification hook: the write half's only private state.
     pub fn verif_written_without_yield(&self) -> u64 {
         let UtpStreamWriteHalf {
